@@ -59,6 +59,13 @@ pub fn engines() -> Vec<EngineDef> {
         },
         EngineDef {
             isolate: false,
+            name: "session-ledger",
+            property: "C04",
+            scenarios: crate::engine_session::scenarios_c04,
+            scenario: crate::engine_session::scenario_c04,
+        },
+        EngineDef {
+            isolate: false,
             name: "gc-sim",
             property: "C03",
             scenarios: crate::engine_gc::scenarios,
